@@ -465,6 +465,8 @@ class Interp(object):
                 v = mod.resolve(name)
                 if isinstance(v, BuiltinRef):
                     return BUILTINS[v.name]
+                if isinstance(v, ModuleRef) and v.name == 'collections.OrderedDict':
+                    return BUILTINS['OrderedDict']
                 return v
             except KeyError:
                 pass
